@@ -276,6 +276,105 @@ EdAccept(e) ==
 (***************************************************************************)
 (* Known findings (/verif/known_findings.json): enabled only for the op +  *)
 (* input class + the kind of wrong outcome the finding describes.          *)
+(*                                                                         *)
+(* C17-mul-long-scalar-throws / C17-mul-long-scalar-wrong: no ed_mul       *)
+(* routine reduces the scalar modulo the group order, and most of them     *)
+(* recode it into buffers / walk tables dimensioned for RLC_FP_BITS (or    *)
+(* bits(n)) without a usable capacity check:                               *)
+(*  - w-NAF / sliding-window / window based routines (ed_mul_lwnaf,        *)
+(*    ed_mul_slide, ed_mul_fix_lwnaf, ed_mul_sim_inter/_basic/_trick/_gen, *)
+(*    first scalar of ed_mul_sim_joint) THROW for a scalar of more than    *)
+(*    RLC_FP_BITS bits (bn_rec_naf / bn_rec_slw / bn_rec_win / bn_rec_jsf  *)
+(*    report ERR_NO_BUFFER);                                               *)
+(*  - table based routines return a WRONG point silently (or read past the *)
+(*    table): ed_mul_fix_basic for more than bits(n) bits (reads table     *)
+(*    entries that were never computed), ed_mul_fix_combs / _combd (and    *)
+(*    ed_mul_gen / ed_mul_fix through them) for more than                  *)
+(*    RLC_DEPTH * ceil(bits(n) / RLC_DEPTH) bits (higher bits are          *)
+(*    ignored); ed_mul_lwreg copies all digits of k into a buffer of       *)
+(*    ceil(RLC_FP_BITS / RLC_DIG) digits (stack overrun, wrong point);     *)
+(*    ed_mul_sim_joint checks the buffer against the FIRST scalar only: a  *)
+(*    longer second scalar overruns the stack buffer jsf[].                *)
+(*                                                                         *)
+(* C17-simtrick-short-scalar: ed_mul_sim_trick recodes with                *)
+(* bn_rec_win(w = RLC_WIDTH / 2), whose mixed int / size_t arithmetic      *)
+(* wraps for scalars shorter than w bits (|k| = 1 for w = 2): the window   *)
+(* loop runs past the buffer (SIGSEGV).                                    *)
+(*                                                                         *)
+(* C17-lwreg-extnd-even-t: ed_mul_reg_imp guards the copy of the T         *)
+(* coordinate of the even-scalar correction with the misspelt              *)
+(* "#if ED_Afp == EXTND" (never true): in EXTND builds an even k returns   *)
+(* the right X, Y, Z with a T that does not satisfy T Z = X Y, so the      *)
+(* result is not a valid extended point (a following ed_add gives a wrong  *)
+(* sum).                                                                   *)
+(*                                                                         *)
+(* C17-normsim-neutral: ed_norm_sim skips the copy of the inverted Z for   *)
+(* an entry that is the neutral element but still multiplies X and Y by    *)
+(* r[i]->z: unless it runs in place on an entry with Z = 1, the neutral    *)
+(* element (0 : Z : Z) comes back as (0, Z^2) resp. (0, stale) - not the   *)
+(* neutral element, in general not a curve point.                          *)
 (***************************************************************************)
-EdKnownKey(e) == ""
+CeilDiv(x, y) == (x + y - 1) \div y
+KBits(k) == BBits(BNorm(k.d))
+NBits(e) == BBits(BNorm(e.n.d))
+CombCap(e) == e.dep * CeilDiv(NBits(e), e.dep)
+(* the algorithm behind a configurable entry point: ED_MUL 1 BASIC 2 SLIDE 3 MONTY 4 LWNAF 5 LWREG;   *)
+(* ED_FIX 1 BASIC 2 COMBS 3 COMBD 4 LWNAF; ED_SIM 1 BASIC 2 TRICK 3 INTER 4 JOINT                     *)
+MulAlg(e) == CASE e.op = "ed_mul" -> e.mul [] e.op = "ed_mul_basic" -> 1 [] e.op = "ed_mul_slide" -> 2
+               [] e.op = "ed_mul_monty" -> 3 [] e.op = "ed_mul_lwnaf" -> 4 [] e.op = "ed_mul_lwreg" -> 5 [] OTHER -> 0
+FixAlg(e) == CASE e.op \in {"ed_mul_fix", "ed_mul_gen"} -> e.fix [] e.op = "ed_mul_fix_basic" -> 1
+               [] e.op = "ed_mul_fix_combs" -> 2 [] e.op = "ed_mul_fix_combd" -> 3
+               [] e.op = "ed_mul_fix_lwnaf" -> 4 [] OTHER -> 0
+SimAlg(e) == CASE e.op \in {"ed_mul_sim", "ed_mul_sim_gen"} -> e.sim [] e.op = "ed_mul_sim_basic" -> 1
+               [] e.op = "ed_mul_sim_trick" -> 2 [] e.op = "ed_mul_sim_inter" -> 3
+               [] e.op = "ed_mul_sim_joint" -> 4 [] OTHER -> 0
+NoCap == 1000000
+MulCap(e, alg) == CASE alg = 2 -> e.fpb + 1 [] alg \in {4, 5} -> e.fpb [] OTHER -> NoCap
+FixCap(e, alg) == CASE alg = 1 -> NBits(e) [] alg \in {2, 3} -> CombCap(e) [] alg = 4 -> e.fpb [] OTHER -> NoCap
+Min(x, y) == IF x <= y THEN x ELSE y
+(* simultaneous routines fall back to ed_mul / ed_mul_gen when a scalar is 0 or a point is the neutral element *)
+SimCap(e) == LET own == CASE SimAlg(e) = 2 -> 2 * CeilDiv(e.fpb, 2) [] SimAlg(e) \in {3, 4} -> e.fpb [] OTHER -> NoCap
+                 viaMul == MulCap(e, e.mul)
+                 viaGen == IF e.op = "ed_mul_sim_gen" THEN FixCap(e, e.fix) ELSE NoCap
+             IN  Min(own, Min(viaMul, viaGen))
+ScalarsOf(e) == IF e.op \in SimOps THEN {e.k, e.m} ELSE {e.k}
+CapOf(e) == IF e.op \in SimOps THEN SimCap(e)
+            ELSE IF FixAlg(e) # 0 THEN FixCap(e, FixAlg(e)) ELSE MulCap(e, MulAlg(e))
+LongScalar(e) == \E k \in ScalarsOf(e) : KBits(k) > CapOf(e)
+(* routines whose failure mode is silent (wrong point / overrun) rather than a thrown error *)
+SilentKind(e) == \/ FixAlg(e) \in {1, 2, 3}
+                 \/ MulAlg(e) = 5
+                 \/ (SimAlg(e) = 4 /\ KBits(e.k) <= e.fpb)
+                 \/ (e.op = "ed_mul_sim_gen" /\ BNorm(e.m.d) = <<>>)
+MulPre(e) == /\ RepOk(e, e.P, SysOf(e)) /\ OnC(e, e.P)
+             /\ (e.op \in SimOps => RepOk(e, e.Q, SysOf(e)) /\ OnC(e, e.Q))
+MulWant(e) == IF e.op \in SimOps THEN EAdd(KP(e, e.k, e.P), KP(e, e.m, e.Q), Crv(e)) ELSE KP(e, e.k, e.P)
+NormSimBad(e, i) == EIsO(EdAbs(e, e.ps[i])) /\ ~(e.al = 1 /\ ZVal(e, e.ps[i]) = <<1>>)
+
+EdKnownKey(e) ==
+    CASE /\ e.op \in (MulOps \cup SimOps) /\ MulPre(e) /\ LongScalar(e)
+         /\ Thrown(e) /\ e.code = 1
+            -> "C17-mul-long-scalar-throws"
+      [] /\ e.op \in (MulOps \cup SimOps) /\ MulPre(e) /\ LongScalar(e) /\ SilentKind(e)
+         /\ IF e.crash # 0 THEN TRUE
+            ELSE Ok(e) /\ ValidTag(e.R) /\ ~RepPoint(e, e.R, MulWant(e), 2)
+            -> "C17-mul-long-scalar-wrong"
+      [] /\ e.op \in SimOps /\ SimAlg(e) = 2 /\ e.op # "ed_mul_sim_gen" /\ MulPre(e)
+         /\ BNorm(e.k.d) # <<>> /\ BNorm(e.m.d) # <<>>
+         /\ ~EIsO(EdAbs(e, e.P)) /\ ~EIsO(EdAbs(e, e.Q))
+         /\ (KBits(e.k) < e.wd \div 2 \/ KBits(e.m) < e.wd \div 2)
+         /\ e.crash # 0
+            -> "C17-simtrick-short-scalar"
+      [] /\ e.op \in {"ed_mul", "ed_mul_lwreg"} /\ MulAlg(e) = 5 /\ e.add = 3 /\ MulPre(e)
+         /\ BBit(e.k.d, 0) = 0 /\ BNorm(e.k.d) # <<>> /\ ~EIsO(EdAbs(e, e.P))
+         /\ Ok(e) /\ RepPoint(e, e.R, MulWant(e), 2) /\ ~TOk(e, e.R)
+            -> "C17-lwreg-extnd-even-t"
+      [] /\ e.op = "ed_norm_sim" /\ Len(e.ps) = e.cnt /\ Len(e.rs) = e.cnt /\ Ok(e)
+         /\ \A i \in 1..e.cnt : RepOk(e, e.ps[i], GenSys(e)) /\ OnC(e, e.ps[i])
+         /\ \E i \in 1..e.cnt : NormSimBad(e, i)
+         /\ \A i \in 1..e.cnt :
+               IF NormSimBad(e, i) THEN FAbs(e, e.rs[i].x) = <<>>       \* X = 0 survives, Y is scaled
+               ELSE RepPoint(e, e.rs[i], EdAbs(e, e.ps[i]), e.add) /\ ZVal(e, e.rs[i]) = <<1>>
+            -> "C17-normsim-neutral"
+      [] OTHER -> ""
 =============================================================================
